@@ -59,6 +59,23 @@ def run(chk):
                     # sources that deliver their last bytes together with io.EOF, or only short reads
                     v = rng.choice([b"@dataerr", b"@dataerr", b"@onebyte", b"@half"]) if len(data) < 5000 else b"@dataerr"
                     wcases.append(("hread", [arg0 + v, data] + sizes)); meta.append((data, names))
+    # a target that accepts only part of a Write and reports the rest with an error (k bytes per call), the caller carrying on
+    # with p[n:]: the target ends up holding the stream, and every hasher reports ITS length and digests
+    import hashlib as _hl
+    pc = []
+    for data in datas[:chk.n(40, 400)]:
+        if not data:
+            continue
+        for k in (1, 3, 64, max(1, len(data) - 1)):
+            pc.append(("hpartial", [b"sha256 md5 sha1 sha512", str(k).encode(), data[:3000]]))
+    pi = chk.run_impl(pc)
+    chk.record("targets-that-accept-part-of-a-write", pc, pi, lambda c, r: r.startswith("true"))
+    for c, r in zip(pc, pi):
+        d = c[1][2]
+        want = " | ".join("true %d:%s" % (len(d), getattr(_hl, a)(d).hexdigest()) for a in ["sha256", "sha256", "md5", "sha1", "sha512"])
+        if r != want:
+            chk.violate({"kind": "property", "case": lib.show_case(c), "impl": r[:500], "expected": want[:500],
+                         "explanation": "behind a target that accepts part of each Write the hashing writers do not report the length and digests of the bytes that went through"})
     for bad in (["sha3"], ["md5", "crc32"], [""], ["SHA256"]):
         wcases.append(("hwrite", [",".join(bad).encode(), b"abc"])); meta.append((b"abc", bad))
     impl = chk.run_impl(wcases)
